@@ -50,8 +50,10 @@ UNARY = {
 for cls, sem in UNARY.items():
     contract(B + f'unary_expressions.{cls}.get_value', 'C01', ensures={'sem': f'result == {sem}'}, modifies=[])
 
+# round 3 (m4): the domain is no longer a precondition: outside it (negative base, non-integer exponent) the evaluator REFUSES
+# (BiogemeError since the repair `raise BiogemeError(error_msg)`; before, a str was raised, i.e. a TypeError)
 contract(B + 'unary_expressions.PowerConstant.get_value', 'C01',
-         requires={'domain': f'{C} >= 0 or self.integer_exponent is not None'},
+         raises={'BiogemeError': f'{C} < 0 and self.integer_exponent is None'},
          ensures={'sem': f"result == ite({C} == 0, 0.0, ite({C} > 0, {C} ** self.exponent, {C} ** typed(self.integer_exponent, 'int')))"},
          modifies=[])
 contract(B + 'numeric_expressions.Numeric.get_value', 'C01', ensures={'sem': 'result == self.value'}, modifies=[])
